@@ -146,3 +146,21 @@ def boundary_acc(rng, total0):
     the point where floor-divide and rounding must be done in the right order and at full precision"""
     m = rng.choice([0, 0, 1, M, M - 1])
     return (m - total0) % B
+
+
+# ---- calling conventions and call history (shared by C01, C02, C03, C17) ----
+import inspect
+def call(f, args, kw=0):
+    """kw = 0: positional; 1: the last argument by its keyword; 2: every argument by keyword"""
+    names = [n for n in inspect.signature(f).parameters]
+    if kw == 1 and len(args) >= 1:
+        return f(*args[:-1], **{names[len(args) - 1]: args[-1]})
+    if kw == 2:
+        return f(**dict(zip(names, args)))
+    return f(*args)
+
+def sibling_acc(rng, acc):
+    """a different starting accumulator for the same move (the earlier call of a planner that tries a move from two states)"""
+    cands = [None, 0, 1, M, M - 1, B // 2, rng.randint(0, M)]
+    cands = [a for a in cands if a != acc]
+    return rng.choice(cands)
